@@ -318,7 +318,7 @@ func (g *Gen) jsonTree(depth int, out *[]*Sexp) {
 }
 
 func runC15(r *Runner, g *Gen, tier string) string {
-	n := scale(tier, 6000, 400000)
+	n := scale(tier, 6000, 1000000)
 	for i := 0; i < n; i++ {
 		batches := []*Sexp{A("jsonout")}
 		for b := 1 + g.r.Intn(2); b > 0; b-- {
